@@ -31,10 +31,15 @@ TRUSTED = [
 ]
 UNPROVED = [
     "multi_cell_charge is proved over the reals (sum of size spends of eps/size is eps; the accountant total is monotone "
-    "in its spends): the float rounding of the per-cell spends is covered by the code's exact up-front check "
-    "(modelled) and validated on exact-fit budgets, not proved",
+    "in its spends, any slack); for IEEE doubles the ★ version multi_cell_charge_gen reduces it to one hypothesis (a "
+    "fitting history still fits without its last spend), which the code's exact up-front check is designed to meet and "
+    "which is validated on exactly fitting budgets, not proved for doubles",
+    "multi-quantile over an axis: only the decisive step is proved (multi_quantile_inner_check, over the reals: the "
+    "per-quantile check(eps/m) is implied by the up-front check(eps)); the composition through runAll is not; in doubles "
+    "that step FAILS by one rounding at exactly fitting budgets (finding C09:quantile/percentile:mechanism-before-refusal)",
     "the estimators' bodies are not modelled statement by statement here (C08 does the plans): model_charge_once is about "
-    "the generic fit shape check-first / sub-queries on throw-away accountants / spend-last, tied by observation",
+    "the generic fit shape check-first / sub-queries on throw-away accountants / spend-last, tied by observing totals of all "
+    "live accountants and the interposed mechanism invocations around the real fit",
 ]
 RULE = ("scenarios = entry point (15 tools x scalar/axis/keepdims/multi-quantile layouts with 1..400 cells, 8 estimators) x "
         "epsilon x accountant state (unlimited / remaining <,=,> epsilon / slack) x prior spends x resolution mode x decoy "
